@@ -266,6 +266,29 @@ def judge(ctx, lit, rng, c):
                     return {'kind': 'to_python_of_a_kept_term_does_not_follow_the_bindings',
                             'detail': {'built_with': mk, 'after_the_query': repr(after)[:120]}, 'witness': dict(w, twin=ttext)}, None
                 c['kept_template_conversions'] = c.get('kept_template_conversions', 0) + len(seen)
+        # the constructors take a Python list the caller keeps using (a row of a table, built once): they must not
+        # change it, and building the same term from it a second time gives the same term again
+        if term[0] == 'c' and not has_partial_list(term):
+            proper = []
+            tt = term
+            while tt[0] == 'c' and tt[1] == '.' and len(tt[2]) == 2:
+                proper.append(tt[2][0])
+                tt = tt[2][1]
+            vm_ = {}
+            if tt == NIL and proper:
+                items = [build_real(yp, a, vm_) for a in proper]
+                mk = lambda: yp.makelist(items)
+            else:
+                items = [build_real(yp, a, vm_) for a in term[2]]
+                mk = (lambda: yp.functor(term[1], items)) if not (term[1] == '.' and len(term[2]) == 2) else (lambda: yp.listpair(items[0], items[1]))
+            keep = list(items)
+            for attempt in (1, 2):
+                built = mk()
+                if len(items) != len(keep) or any(x is not y for x, y in zip(items, keep)):
+                    return {'kind': 'constructor_changed_the_list_it_was_given', 'detail': {'attempt': attempt, 'length_before': len(keep), 'length_after': len(items)}, 'witness': w}, None
+                if snap_real(E, [built]) != exp:
+                    return {'kind': 'api_built_term_differs', 'detail': {'attempt': attempt, 'expected': exp, 'got': snap_real(E, [built])}, 'witness': w}, None
+            c['constructor_argument_lists_checked'] = c.get('constructor_argument_lists_checked', 0) + 1
         # API-built twins, built in this engine and in a second engine
         for eng, label in ((yp, 'same_engine'), (yp2, 'other_engine')):
             for pos in ('fact', 'head', 'body', 'query'):
@@ -318,8 +341,58 @@ def all_atoms(t, acc=None):
     return acc
 
 
+def shared_engine_threads_case(ctx, rng, idx):
+    """several threads ask ONE engine for atoms that do not exist yet (names met for the first time by all of them at
+    about the same moment), with yield injection on the engine's lines: every thread must get the same object per
+    name, and it must be the one the engine hands out afterwards"""
+    import sys
+    import threading
+    from .c04 import LineInjector
+    real = ctx['real']
+    E = real.E
+    yp = real.engine()
+    if ctx.get('lines') is None:
+        ctx['lines'] = LineInjector(E.__file__, rng.random())
+    inj = ctx['lines']
+    k = rng.choice([2, 3, 4, 8])
+    names = ['thr %d %d %s' % (idx, i, rng.choice(['a', 'é', 'x y'])) for i in range(rng.choice([20, 60]))]
+    got = [dict() for _ in range(k)]
+    start = threading.Barrier(k)
+
+    def work(t):
+        start.wait()
+        order = list(names)
+        if t % 2:
+            order.reverse()
+        for n in order:
+            got[t][n] = yp.atom(n)
+    old = sys.getswitchinterval()
+    sys.setswitchinterval(1e-6)
+    inj.start(3000000)
+    try:
+        ts = [threading.Thread(target=work, args=(i,)) for i in range(k)]
+        for t in ts:
+            t.start()
+        for t in ts:
+            t.join(60)
+    finally:
+        inj.stop()
+        sys.setswitchinterval(old)
+    c = {'shared_engine_thread_runs': 1, 'atoms_requested_from_threads': k * len(names), 'thread_switches_observed': inj.switches}
+    if any(t.is_alive() for t in ts):
+        return {'c': c, 'nt': False, 'key': None, 'discard': 'thread_did_not_finish'}
+    for n in names:
+        objs = [g.get(n) for g in got]
+        if any(o is not objs[0] for o in objs) or objs[0] is not yp.atom(n):
+            return {'c': c, 'nt': True, 'key': None, 'v': {'kind': 'atom_not_interned', 'detail': {'name': n, 'threads': k, 'distinct_objects': len(set(id(o) for o in objs))},
+                                                           'witness': {'threads': k, 'names': len(names), 'literal': 'yp.atom(%r) from %d threads' % (n, k)}}}
+    return {'c': c, 'nt': True, 'key': ('threads', idx)}
+
+
 def run_case(ctx, seed, idx, tier):
     rng = random.Random((seed * 1000003 + idx) * 7 + 16)
+    if idx % 400 == 77:
+        return shared_engine_threads_case(ctx, rng, idx)
     c = {}
     lit = gen_literal(rng, rng.choice([0, 1, 2, 3]), c)
     v, disc = judge(ctx, lit, rng, c)
